@@ -23,7 +23,7 @@ def overlay(scratch, attach, rfile):
     return modname
 
 
-def run_tests(items, timeout=1800, scratch=None):
+def run_tests(items, timeout=300, scratch=None):
     """items: list of dict(crate, attach, file, test). Returns (results, log). results[test] = dict(ok, cex, stats)"""
     own = scratch is None
     if own:
@@ -46,7 +46,7 @@ def run_tests(items, timeout=1800, scratch=None):
         env['RUST_BACKTRACE'] = '0'
         for crate, its in by_crate.items():
             for it in its:
-                cmd = ['cargo', 'test', '--offline', '-q', '-p', crate, '--lib', it['test'], '--', '--nocapture', '--test-threads=1']
+                cmd = ['cargo', 'test', '--offline', '-q', '-p', crate] + it.get('target', ['--lib']) + [it['test'], '--', '--nocapture', '--test-threads=1']
                 t0 = time.time()
                 try:
                     p = subprocess.run(cmd, cwd=scratch, env=env, capture_output=True, text=True, timeout=timeout)
